@@ -242,10 +242,10 @@ Proof.
   rewrite str_eqb_sym, H1. reflexivity.
 Qed.
 
-Lemma set_assoc_override : forall vars k y x0, nodupb (map fst vars) = true -> assoc k vars = Some (VConst, x0) ->
-  set_assoc k (VConst, y) vars = map (override [(k, y)]) vars.
+Lemma set_assoc_override : forall vars k y t0 x0, nodupb (map fst vars) = true -> assoc k vars = Some (t0, x0) ->
+  set_assoc k (t0, y) vars = map (override [(k, y)]) vars.
 Proof.
-  induction vars as [|[k0 [t0 x1]] vars IH]; intros k y x0 Hn Ha; [discriminate|].
+  induction vars as [|[k0 [t1 x1]] vars IH]; intros k y t0 x0 Hn Ha; [discriminate|].
   cbn [map fst nodupb] in Hn. apply andb_prop in Hn as [Hn1 Hn2]. apply negb_true_iff in Hn1.
   cbn [set_assoc assoc map] in *. destruct (str_eqb k k0) eqn:Ek.
   - apply str_eqb_eq in Ek. subst k0. injection Ha as -> ->. rewrite (override_notin k y vars Hn1).
@@ -267,7 +267,7 @@ Proof.
 Qed.
 
 Definition const_in (vars : list (str * vspec)) (u : upd) : bool :=
-  forallb (fun kv => match assoc (fst kv) vars with Some (VConst, _) => true | _ => false end) u.
+  forallb (fun kv => match assoc (fst kv) vars with Some _ => true | None => false end) u.
 
 Lemma merge_override : forall u vars, nodupb (map fst vars) = true -> nodupb (map fst u) = true -> const_in vars u = true ->
   merge_vars vars u = map (override u) vars.
@@ -276,15 +276,15 @@ Proof.
   - cbn [fold_left]. rewrite (map_ext _ (fun kv => kv)) by apply override_nil. now rewrite map_id.
   - cbn [fold_left fst snd]. cbn [map fst nodupb] in Hu. apply andb_prop in Hu as [Hu1 Hu2]. apply negb_true_iff in Hu1.
     unfold const_in in Hc. cbn [forallb fst] in Hc. apply andb_prop in Hc as [Hc1 Hc2].
-    destruct (assoc k vars) as [[[] x0]|] eqn:Ea; try discriminate.
-    rewrite (set_assoc_override vars k y x0 Hv Ea).
+    destruct (assoc k vars) as [[t0 x0]|] eqn:Ea; try discriminate. cbv beta iota.
+    pose proof (set_assoc_override vars k y t0 x0 Hv Ea) as Hs. unfold vspec in *. rewrite Hs.
     rewrite IH.
-    + rewrite map_map. apply map_ext. intros [k0 [t0 x1]]. unfold override. cbn [fst snd assoc]. f_equal. f_equal.
+    + rewrite map_map. apply map_ext. intros [k0 [t1 x1]]. unfold override. cbn [fst snd assoc]. f_equal. f_equal.
       destruct (str_eqb k0 k) eqn:E0; [|reflexivity]. apply str_eqb_eq in E0. subst k0. now rewrite (assoc_notin u k Hu1).
     + now rewrite map_fst_override.
     + exact Hu2.
-    + unfold const_in. rewrite forallb_forall in *. intros kv Hkv. specialize (Hc2 kv Hkv). rewrite assoc_map_override.
-      destruct (assoc (fst kv) vars) as [[[] x2]|]; try discriminate. reflexivity.
+    + unfold const_in. rewrite forallb_forall in *. intros kv Hkv. specialize (Hc2 kv Hkv). rewrite assoc_map_override. unfold vspec in *.
+      destruct (assoc (fst kv) vars) as [[t2 x2]|]; try discriminate. reflexivity.
 Qed.
 
 (* node-level guards *)
@@ -477,8 +477,6 @@ Theorem load_dump_refuted_rename : exists c, dicts_wf c = true /\ const_override
 Proof. exists w_rename. repeat split; try (vm_compute; reflexivity). apply roundtrip_ok_false. vm_compute. reflexivity. Qed.
 Theorem load_dump_refuted_three : exists c, dicts_wf c = true /\ const_overrides c = true /\ variants_le2 c = false /\ ~ load_dump_statement c.
 Proof. exists w_three. repeat split; try (vm_compute; reflexivity). apply roundtrip_ok_false. vm_compute. reflexivity. Qed.
-Theorem load_dump_refuted_kind : exists c, dicts_wf c = true /\ no_rename c = true /\ const_overrides c = false /\ ~ load_dump_statement c.
-Proof. exists w_kind. repeat split; try (vm_compute; reflexivity). apply roundtrip_ok_false. vm_compute. reflexivity. Qed.
 Theorem load_dump_nonvacuous : WFy w_ok = true /\ roundtrip_ok w_ok = true /\ List.length (fst (denote w_ok)) = 4.
 Proof. repeat split; vm_compute; reflexivity. Qed.
 
